@@ -260,7 +260,26 @@ fn show_uid(st: &St, uid: u32) -> String {
 // ---------------------------------------------------------------------------------------------
 // the scripted transport
 
-struct Sock {
+/// The address type of the scripted transport. Its `Debug` output is deliberately the same for every address (the trait
+/// only promises `Eq + Hash` for identity; code that keys anything on the Debug rendering is wrong) - `Display` is the number.
+#[derive(Clone, Copy, Default, PartialEq, Eq, Hash)]
+pub struct A(pub u32);
+impl std::fmt::Debug for A {
+    fn fmt(&self, f: &mut std::fmt::Formatter<'_>) -> std::fmt::Result {
+        write!(f, "addr")
+    }
+}
+impl std::fmt::Display for A {
+    fn fmt(&self, f: &mut std::fmt::Formatter<'_>) -> std::fmt::Result {
+        write!(f, "{}", self.0)
+    }
+}
+
+/// cloneable (so that `Datapath<Sock>: Clone` and flows can issue commands through a COPY of their handle)
+#[derive(Clone)]
+struct Sock(Arc<SockInner>);
+
+struct SockInner {
     script: Mutex<VecDeque<Item>>,
     fail: AtomicUsize,
     flag: Arc<AtomicBool>,
@@ -269,22 +288,22 @@ struct Sock {
 }
 
 impl Ipc for Sock {
-    type Addr = u32;
+    type Addr = A;
     fn name() -> String {
         "scripted".into()
     }
 
-    fn send(&self, msg: &[u8], to: &u32) -> portus::Result<()> {
-        let mut st = lk(&self.sh);
+    fn send(&self, msg: &[u8], to: &A) -> portus::Result<()> {
+        let mut st = lk(&self.0.sh);
         let typ = if msg.len() >= 2 { u16::from_le_bytes([msg[0], msg[1]]) } else { 0xffff };
         let at = |o: usize| u32::from_le_bytes([msg[o], msg[o + 1], msg[o + 2], msg[o + 3]]);
         let ev = if typ == 2 && msg.len() >= 20 {
             let uid = at(8);
-            if let Some((p, _)) = self.images.iter().find(|(_, im)| im[..] == msg[20..]) {
+            if let Some((p, _)) = self.0.images.iter().find(|(_, im)| im[..] == msg[20..]) {
                 st.uid2p.insert(uid, p.clone());
                 st.p2uid.insert(p.clone(), uid);
             }
-            Ev::In(*to, show_uid(&st, uid))
+            Ev::In(to.0, show_uid(&st, uid))
         } else if typ == 4 && msg.len() >= 16 {
             Ev::S(format!("TX {} CP {} {} {}", to, at(4), show_uid(&st, at(8)), hex(&msg[16..])))
         } else if typ == 3 && msg.len() >= 12 {
@@ -292,9 +311,9 @@ impl Ipc for Sock {
         } else {
             Ev::S(format!("TX {} OT {}", to, hex(msg)))
         };
-        let f = self.fail.load(Ordering::SeqCst);
+        let f = self.0.fail.load(Ordering::SeqCst);
         if f > 0 {
-            self.fail.store(f - 1, Ordering::SeqCst);
+            self.0.fail.store(f - 1, Ordering::SeqCst);
             st.log.push(Ev::S(format!("TXFAIL {}", to)));
             return Err(portus::Error("scripted send failure".into()));
         }
@@ -302,13 +321,13 @@ impl Ipc for Sock {
         Ok(())
     }
 
-    fn recv(&self, buf: &mut [u8]) -> portus::Result<(usize, u32)> {
-        let mut sc = self.script.lock().unwrap_or_else(|e| e.into_inner());
+    fn recv(&self, buf: &mut [u8]) -> portus::Result<(usize, A)> {
+        let mut sc = self.0.script.lock().unwrap_or_else(|e| e.into_inner());
         loop {
             match sc.pop_front() {
-                Some(Item::Fail(k)) => self.fail.store(k, Ordering::SeqCst),
+                Some(Item::Fail(k)) => self.0.fail.store(k, Ordering::SeqCst),
                 None | Some(Item::Stop) => {
-                    self.flag.store(false, Ordering::SeqCst);
+                    self.0.flag.store(false, Ordering::SeqCst);
                     return Err(portus::Error("stop".into()));
                 }
                 Some(Item::RecvErr) => return Err(portus::Error("recv error".into())),
@@ -320,7 +339,7 @@ impl Ipc for Sock {
                             M::Ms(sid, uid, vals) => {
                                 let uid = match uid {
                                     Uid::Lit(u) => u,
-                                    Uid::Prog(p) => lk(&self.sh).p2uid.get(&p).copied().unwrap_or(0),
+                                    Uid::Prog(p) => lk(&self.0.sh).p2uid.get(&p).copied().unwrap_or(0),
                                 };
                                 d.extend(ms_bytes(sid, uid, &vals));
                             }
@@ -328,15 +347,15 @@ impl Ipc for Sock {
                     }
                     let n = d.len().min(1024).min(buf.len());
                     buf[..n].copy_from_slice(&d[..n]);
-                    lk(&self.sh).log.push(Ev::S(format!("RX {} {}", a, n)));
-                    return Ok((n, a));
+                    lk(&self.0.sh).log.push(Ev::S(format!("RX {} {}", a, n)));
+                    return Ok((n, A(a)));
                 }
             }
         }
     }
 
     fn close(&mut self) -> portus::Result<()> {
-        lk(&self.sh).closes += 1;
+        lk(&self.0.sh).closes += 1;
         Ok(())
     }
 }
@@ -433,11 +452,15 @@ impl Fl {
     /// run the policy commands of `new_flow` (`rep` = None) or `on_report`
     fn exec(&mut self, in_or: bool, rep: Option<&Report>) {
         let cfg = self.cfg.clone();
-        for c in if in_or { &cfg.or } else { &cfg.nf } {
+        for (k, c) in (if in_or { &cfg.or } else { &cfg.nf }).iter().enumerate() {
+            // every other command is issued through a fresh COPY of the flow's handle (`Datapath: Clone`): a copy must behave
+            // exactly like the handle it was copied from
+            let mut copy = self.dp.clone();
+            let via_copy = (k + self.id as usize) % 2 == 1;
             let line = match c {
                 Cmd::Sp(p, upd) => {
                     let v = upd.as_ref().map(as_refs);
-                    match self.dp.set_program(p, v.as_deref()) {
+                    match (if via_copy { &mut copy } else { &mut self.dp }).set_program(p, v.as_deref()) {
                         Ok(sc) => {
                             let l = format!("SP {} OK {}", p, show_uid(&lk(&self.sh), sc.program_uid));
                             self.scopes.insert(p.to_string(), sc.clone());
@@ -449,7 +472,7 @@ impl Fl {
                 }
                 Cmd::Uf(u) => match &self.cur {
                     None => "UF NOSCOPE".to_string(),
-                    Some(sc) => match self.dp.update_field(sc, &as_refs(u)) {
+                    Some(sc) => match (if via_copy { &copy } else { &self.dp }).update_field(sc, &as_refs(u)) {
                         Ok(()) => "UF OK".to_string(),
                         Err(_) => "UF ERR".to_string(),
                     },
@@ -464,6 +487,9 @@ impl Fl {
 
 impl Flow for Fl {
     fn on_report(&mut self, sock_id: u32, m: Report) {
+        if PAIR_MODE.load(Ordering::Relaxed) {
+            std::thread::sleep(std::time::Duration::from_micros(30));
+        }
         let l = format!("RP {} {} {}", self.id, sock_id, show_uid(&lk(&self.sh), m.program_uid));
         say(&self.sh, l);
         self.exec(true, Some(&m));
@@ -521,6 +547,39 @@ fn render(log: &[Ev], nprogs: usize) -> Vec<String> {
     out
 }
 
+/// set while RUNPAIR runs: flow callbacks then pause briefly, so that the two runtimes really overlap in time
+static PAIR_MODE: AtomicBool = AtomicBool::new(false);
+
+/// `RUNPAIR <RUN args> || <RUN args>`: two runtimes alive in the same process at the same time, each on its own thread with
+/// its own transport; each must behave exactly as it does alone (`<trace A> || <trace B>`)
+pub fn runpair(args: &[&str]) -> String {
+    let k = match args.iter().position(|t| *t == "||") {
+        Some(k) => k,
+        None => return "BADARG".into(),
+    };
+    let a: Vec<String> = args[..k].iter().map(|s| s.to_string()).collect();
+    let b: Vec<String> = args[k + 1..].iter().map(|s| s.to_string()).collect();
+    // the harness keeps algorithm names in process-global slots (CongAlg::name() is a static fn): both halves must register
+    // the same algorithms - the scripts differ
+    let cfg = |v: &Vec<String>| v.iter().take_while(|t| *t != "SCRIPT").cloned().collect::<Vec<_>>();
+    if cfg(&a) != cfg(&b) {
+        return "BADARG".into();
+    }
+    PAIR_MODE.store(true, Ordering::SeqCst);
+    let go = Arc::new(std::sync::Barrier::new(2));
+    let spawn = |v: Vec<String>, go: Arc<std::sync::Barrier>| {
+        std::thread::spawn(move || {
+            let r: Vec<&str> = v.iter().map(|s| s.as_str()).collect();
+            go.wait();
+            catch_unwind(|| run(&r)).unwrap_or_else(|_| "PANIC".to_string())
+        })
+    };
+    let (ha, hb) = (spawn(a, go.clone()), spawn(b, go));
+    let (ra, rb) = (ha.join().unwrap_or_else(|_| "PANIC".into()), hb.join().unwrap_or_else(|_| "PANIC".into()));
+    PAIR_MODE.store(false, Ordering::SeqCst);
+    format!("{} || {}", ra, rb)
+}
+
 pub fn run(args: &[&str]) -> String {
     let (algs, items) = match parse(args) {
         Some(x) => x,
@@ -540,7 +599,7 @@ pub fn run(args: &[&str]) -> String {
     }
     let flag = Arc::new(AtomicBool::new(true));
     let sh: Sh = Arc::new(Mutex::new(St::default()));
-    let sock = Sock { script: Mutex::new(items), fail: AtomicUsize::new(0), flag: flag.clone(), images, sh: sh.clone() };
+    let sock = Sock(Arc::new(SockInner { script: Mutex::new(items), fail: AtomicUsize::new(0), flag: flag.clone(), images, sh: sh.clone() }));
     {
         let mut n = NAMES.lock().unwrap_or_else(|e| e.into_inner());
         *n = [""; 5];
